@@ -193,7 +193,9 @@ func (r *Route) TargetConfig(t *Target, addWeight bool) string {
 func (r *Route) config(addWeight bool) []string {
 	var cfg []string
 	for _, t := range r.Targets {
-		if t.Weight <= 0 {
+		// targets without traffic are only hidden from the weighted view;
+		// the plain config must keep them so that it can be parsed back
+		if addWeight && t.Weight <= 0 {
 			continue
 		}
 		cfg = append(cfg, r.TargetConfig(t, addWeight))
